@@ -7,6 +7,8 @@
 #include <stdio.h>
 #include <stdlib.h>
 #include <string.h>
+#include <signal.h>
+#include <unistd.h>
 #include "a/a.h"
 
 typedef struct
@@ -93,9 +95,21 @@ static void *f_shim(void *addr, a_size size)
     if (f_counting) { f_logf("alloc", oldid, (long)size, 1, id); }
     return np;
 }
+/* watchdog: a library call (and the harness's reading of its result) that does not finish within 30 s is reported like a
+   crash - the harness prints HANG and its own CRASH line, and exits with status 96; every f_begin re-arms it */
+static void (*f_on_hang)(void);
+static void f_alarm(int sig)
+{
+    (void)sig;
+    fputs("HANG\n", stdout);
+    if (f_on_hang) { f_on_hang(); }
+    fflush(stdout);
+    _exit(96);
+}
 /* the log is a comma separated list: patch separators in afterwards */
 static void f_begin(long single, long from)
 {
+    alarm(30);
     f_req = 0;
     f_failed = 0;
     f_single = single;
@@ -120,5 +134,5 @@ static void f_put_log(FILE *f)
     }
     fputc(']', f);
 }
-static void f_install(void) { a_alloc = f_shim; }
+static void f_install(void) { a_alloc = f_shim; signal(SIGALRM, f_alarm); }
 #endif
